@@ -33,7 +33,7 @@ CFOps == { [op |-> "create_file", acc |-> "RDWR", excl |-> x, opath |-> FALSE, o
          \cup { [op |-> "create_file", acc |-> "RDONLY", excl |-> FALSE, opath |-> TRUE, odir |-> d] : d \in BOOLEAN }
          \cup { [op |-> "create_file", acc |-> "RDWR", excl |-> FALSE, opath |-> FALSE, odir |-> TRUE] }
 RemoveOps == { [op |-> "remove_file"], [op |-> "remove_dir"] }
-RenameOps == { [op |-> "rename", flag |-> f, raw |-> 0] : f \in {"", "NOREPLACE", "EXCHANGE"} } \cup { [op |-> "rename", flag |-> "INVALID", raw |-> r] : r \in {3, 128, 7} }
+RenameOps == { [op |-> "rename", flag |-> f, raw |-> 0] : f \in {"", "NOREPLACE", "EXCHANGE", "WHITEOUT", "WHITEOUT_NOREPLACE"} } \cup { [op |-> "rename", flag |-> "INVALID", raw |-> r] : r \in {3, 128, 7, 6} }
 const_Ops == CreateOps \cup CFOps \cup RemoveOps \cup RenameOps
 const_OpsMkRm == { [op |-> "mkdir_all"], [op |-> "remove_all"] }
 TMk == [name |-> "mk", maxlen |-> 3, paths2 |-> {<<"">>}, nodes |-> <<
